@@ -67,6 +67,8 @@ def work(job):
     spec = job["spec"]
     if job["kind"] == "e1":
         return e1.work_equiv(spec, total=True)
+    if job["kind"] == "e1x":
+        return e1.work_equiv(spec)
     # sections
     base = {"name": "sections/" + spec["name"], "concrete": True}
     texts = []
@@ -110,6 +112,14 @@ def run(tier, seed):
     for s in casc:
         jobs.append({"kind": "e1", "spec": s, "name": s["name"]})
         jobs.append({"kind": "sections", "spec": s, "name": s["name"]})
+    # every specification shipped with the repository (14 of them are cascades), small extents
+    from .. import integ
+    for s in integ.integration_e1_specs():
+        if s["name"].endswith("test_translate_no_loops.yaml"):
+            continue
+        jobs.append({"kind": "e1x", "spec": s, "name": s["name"]})
+        if len(s["exprs"]) > 1:
+            jobs.append({"kind": "sections", "spec": s, "name": s["name"]})
     res = runner.pmap(work, jobs)
     e1r = [r for r in res if "presence_vars" in r]
     cov = {
